@@ -8,7 +8,7 @@ for f in sorted(glob.glob(os.path.join(ROOT, "seeded", "C*", "meta.json"))):
     first = next((l.strip("# -*").strip() for l in m["needs_to_manifest"].splitlines() if l.strip()), "")
     c = m["confirmed"]
     rows.append("| %s | %s | demo %s -> %s; baseline %s; tests/ %s | %s | %s | %s |" % (
-        m["property"], first[:150].replace("|", "/"), c["demo_exit_on_unchanged_tree"], c["demo_exit_on_changed_tree"], c["baseline_tests_still_passing"],
+        m.get("name", m["property"]), first[:150].replace("|", "/"), c["demo_exit_on_unchanged_tree"], c["demo_exit_on_changed_tree"], c["baseline_tests_still_passing"],
         (c["full_suite_from_tests_dir"] or "").split(",")[0][:40], "yes" if m["target_check_catches_it"] else "**no**", ", ".join(m["caught_by"]) or "none",
         m.get("after_strengthening", "")))
 out = ["# Independent seeded changes", "",
